@@ -58,7 +58,7 @@ def _confined(encoded):
 
 def C14_encode(metric: str, hash_only: bool) -> bool:
   """
-  pre: len(metric) <= 4
+  pre: len(metric) <= 5
   post: __return__
   """
   enc = TS.encode(metric, '/', hash_only=hash_only)
@@ -301,7 +301,7 @@ _ASSUME = ['sha256(...).hexdigest() replaced by a stub returning 64 lowercase he
 
 HARNESSES = [
   H('C14_encode', quick=dict(timeout=280, shards=[('len%d' % n, 'len(metric) == %d' % n) for n in range(4)] + [('len4_h%d' % h, 'len(metric) == 4 and hash_only == %s' % bool(h)) for h in (0, 1)]),
-    thorough=dict(timeout=1500, shards=[('len%d' % n, 'len(metric) == %d' % n) for n in range(6)], extra_pre=[]),
+    thorough=dict(timeout=1500, shards=[('len%d' % n, 'len(metric) == %d' % n) for n in range(5)] + [('len5_h%d' % h, 'len(metric) == 5 and hash_only == %s' % bool(h)) for h in (0, 1)], extra_pre=[]),
     covers=['tagged', 'plain'], replay='replay_encode', twin_pre=['len(metric) <= 2'], encodes=['carbon.util:TaggedSeries.encode'], assumptions=_ASSUME),
   H('C14_whisper_path', quick=dict(timeout=280, shards=[('d%d' % d, 'di == %d' % d) for d in range(len(DATA_DIRS))]),
     covers=['mapped'], replay='replay_whisper_path',
